@@ -18,12 +18,12 @@ func init() {
 }
 
 func runC04(c *Ctx) {
-	c.Rule("R04a", "mysql/postgres plan(): unless Mode == PlanModeUnsortedDump every path to the statement loop passes DetachCycles then SortChanges, each applied to and assigned back to the list the loop ranges over", 8)
-	c.Rule("R04b", "sqlx.dependsOn orientation: refTo/typeDependsOnT(…, X.T) tests the *other* change's table in add contexts (AddTable, ModifyTable) and the *depending* change's table in the DropTable context", 8)
-	c.Rule("R04c", "detachReferences partition: AddForeignKey-carrying changes go to the late list and table creations to the early list; DropForeignKey-carrying changes go to the early list and table drops to the late list; detached keys are removed from the planned table copy; the result is early followed by late", 7)
+	c.Rule("R04a", "mysql/postgres plan(): unless Mode == PlanModeUnsortedDump every path to the statement loop passes DetachCycles then SortChanges, each applied to and assigned back to the list the loop ranges over", 4)
+	c.Rule("R04b", "sqlx.dependsOn orientation: refTo/typeDependsOnT(…, X.T) tests the *other* change's table in add contexts (AddTable, ModifyTable) and the *depending* change's table in the DropTable context", 4)
+	c.Rule("R04c", "detachReferences partition: AddForeignKey-carrying changes go to the late list and table creations to the early list; DropForeignKey-carrying changes go to the early list and table drops to the late list; detached keys are removed from the planned table copy; the result is early followed by late", 4)
 	c.Rule("R04d", "sortMap: a node is marked in progress before its dependencies are visited, gets its position only after them, and meeting an in-progress node reports a cycle; DetachCycles falls back to detachReferences exactly on errCycle", 4)
 
-	c.Rule("R04e", "dependencies(): every edge `deps[K] = append(deps[K], V)` is consistent with its guard: an add-edge (K = change.T.Name, V = fk.RefTable) is guarded by `fk.RefTable != change.T` on the same fk; a drop-edge (K = fk.RefTable.Name, V = fk.Table) by isDropped(changes, fk.RefTable)", 5)
+	c.Rule("R04e", "dependencies(): every edge `deps[K] = append(deps[K], V)` is consistent with its guard: an add-edge (K = change.T.Name, V = fk.RefTable) is guarded by `fk.RefTable != change.T` on the same fk; a drop-edge (K = fk.RefTable.Name, V = fk.Table) by isDropped(changes, fk.RefTable)", 2)
 	c.Rule("R04f", "dependsOn: the tables of the two changes are compared by pointer only when both changes are ModifyTable (AddTable/DropTable tables may be copies made by detachReferences; identity there is name + schema)", 1)
 	checkDependencyEdges(c)
 	checkPointerIdentity(c)
@@ -647,27 +647,58 @@ func checkDependencyEdges(c *Ctx) {
 		}
 		n++
 		key, val := types.ExprString(ix.Index), types.ExprString(call.Args[1])
-		// the innermost guarding if
-		var ifs *ast.IfStmt
-		for p := pm[as]; p != nil; p = pm[p] {
-			if i, ok := p.(*ast.IfStmt); ok {
-				ifs = i
+		// facts established by the enclosing if-branches
+		var facts []fact
+		var child ast.Node = as
+		for p := pm[as]; p != nil; child, p = p, pm[p] {
+			if _, isLit := p.(*ast.FuncLit); isLit {
 				break
 			}
+			if i, ok := p.(*ast.IfStmt); ok {
+				switch child {
+				case ast.Node(i.Body):
+					facts = append(facts, impliedFacts(i.Cond, true)...)
+				case i.Else:
+					facts = append(facts, impliedFacts(i.Cond, false)...)
+				}
+			}
 		}
-		if ifs == nil {
+		if len(facts) == 0 {
 			c.Check("R04e", "dependencies|edge "+key+" ← "+val, as.Pos(), false, "dependency edge added unconditionally")
 			return true
 		}
-		cond := types.ExprString(ifs.Cond)
+		cond := ""
+		for _, f := range facts {
+			cond += types.ExprString(f.expr) + " "
+		}
 		ok2 := false
+		keySel, _ := ast.Unparen(ix.Index).(*ast.SelectorExpr)
 		switch {
-		case strings.HasSuffix(val, ".RefTable"):
-			// add-edge: guard `<val> != change.T` and key `change.T.Name`
-			ok2 = strings.HasPrefix(cond, val+" != ") && strings.HasSuffix(key, ".T.Name") && strings.HasSuffix(cond, strings.TrimSuffix(key, ".Name"))
-		case strings.HasSuffix(val, ".Table"):
+		case isField(info, call.Args[1], pSchema, "ForeignKey", "RefTable"):
+			// add-edge K = E.Name ← F.RefTable: some fact says F.RefTable != E
+			if keySel != nil && keySel.Sel.Name == "Name" && typeIs(derefType(info.TypeOf(keySel.X)), pSchema, "Table") {
+				e := types.ExprString(keySel.X)
+				for _, f := range facts {
+					be, ok := ast.Unparen(f.expr).(*ast.BinaryExpr)
+					if !ok || !(be.Op == token.NEQ && f.val || be.Op == token.EQL && !f.val) {
+						continue
+					}
+					x, y := types.ExprString(be.X), types.ExprString(be.Y)
+					if x == val && y == e || y == val && x == e {
+						ok2 = true
+					}
+				}
+			}
+		case isField(info, call.Args[1], pSchema, "ForeignKey", "Table"):
+			// drop-edge K = F.RefTable.Name ← F.Table: some fact says isDropped(…, F.RefTable)
 			fk := strings.TrimSuffix(val, ".Table")
-			ok2 = key == fk+".RefTable.Name" && strings.Contains(cond, "isDropped(") && strings.Contains(cond, fk+".RefTable")
+			if key == fk+".RefTable.Name" {
+				for _, f := range facts {
+					if cl, ok := ast.Unparen(f.expr).(*ast.CallExpr); ok && f.val && funcIs(calleeOf(info, cl), pSqlx, "", "isDropped") && len(cl.Args) == 2 && types.ExprString(cl.Args[1]) == fk+".RefTable" {
+						ok2 = true
+					}
+				}
+			}
 		}
 		c.Check("R04e", "dependencies|edge "+key+" ← "+val, as.Pos(), ok2, "the dependency edge %s ← %s is guarded by `%s`, which does not test the same foreign key end: self references are not skipped / real references are dropped from the cycle detection graph", key, val, cond)
 		return true
